@@ -30,6 +30,7 @@ class Column:
     unique: bool = False
     ondelete: str | None = None
     node: ast.AST | None = None
+    inert_ondelete: str | None = None     # declared, but the database never enforces foreign keys
 
 
 @dataclass
@@ -39,6 +40,7 @@ class Rel:
     cascade: str = ''
     secondary: str | None = None
     node: ast.AST | None = None
+    passive: bool = False         # passive_deletes: the ORM leaves unloaded children to the database
 
 
 @dataclass
@@ -61,6 +63,14 @@ def _kw(call: ast.Call, name: str):
 def read_schema(rep: Report, idx: Index) -> tuple[dict[str, Model], dict[str, list[tuple[str, str]]]]:
     models: dict[str, Model] = {}
     assoc: dict[str, list[tuple[str, str]]] = {}       # table var -> [(col, 'Table.col')]
+    # database-level rules (ON DELETE ..) act only when SQLite is told to enforce foreign keys
+    fk_enforced = False
+    for rel_ in rep.repo.py_files('dashlive/server'):
+        for n_ in ast.walk(rep.repo.tree(rel_)):
+            if isinstance(n_, ast.Constant) and isinstance(n_.value, str) \
+                    and re.search(r'pragma\s+foreign_keys\s*=\s*(on|1|true)', n_.value, re.I):
+                fk_enforced = True
+    rep.extra['sqlite_foreign_keys_enforced'] = fk_enforced
     for q, c in idx.classes.items():
         if not q.startswith(MODELS_PKG) or '__tablename__' not in c.attrs:
             continue
@@ -90,7 +100,10 @@ def read_schema(rep: Report, idx: Index) -> tuple[dict[str, Model], dict[str, li
                                 col.fk = a.args[0].value
                             od = _kw(a, 'ondelete')
                             if isinstance(od, ast.Constant):
-                                col.ondelete = od.value
+                                if fk_enforced:
+                                    col.ondelete = od.value
+                                else:
+                                    col.inert_ondelete = od.value
                     m.columns[col.name] = col
                 elif fn.endswith('relationship'):
                     target = None
@@ -102,10 +115,16 @@ def read_schema(rep: Report, idx: Index) -> tuple[dict[str, Model], dict[str, li
                         target = names[0] if names else '?'
                     cas = _kw(b.value, 'cascade')
                     sec = _kw(b.value, 'secondary')
+                    pas = _kw(b.value, 'passive_deletes')
+                    passive = pas is not None and not (isinstance(pas, ast.Constant) and pas.value in (False, None))
+                    cas_text = cas.value if isinstance(cas, ast.Constant) else ''
+                    if passive and not fk_enforced:
+                        # the ORM no longer loads and deletes the children; nothing else does
+                        cas_text = ', '.join(t for t in re.split(r'\s*,\s*', cas_text)
+                                             if t and t not in ('all', 'delete', 'delete-orphan'))
                     m.rels[b.target.id] = Rel(
-                        b.target.id, target,
-                        cas.value if isinstance(cas, ast.Constant) else '',
-                        norm(sec) if sec is not None else None, b)
+                        b.target.id, target, cas_text,
+                        norm(sec) if sec is not None else None, b, passive)
             elif isinstance(b, (ast.Assign, ast.AnnAssign)):
                 tgt = b.targets[0] if isinstance(b, ast.Assign) else b.target
                 if isinstance(tgt, ast.Name) and tgt.id == '__table_args__' and b.value is not None:
@@ -252,11 +271,16 @@ def r17_1(rep: Report, idx: Index, models: dict[str, Model], assoc, sites) -> No
             rep.ok(rid, construct, key, 'every deletion site re-targets the reference first')
             continue
         for sconstruct, node in bad:
+            inert = ''
+            if col.inert_ondelete or any(r.passive for r in rel_pc):
+                inert = (f' (declared: ondelete={col.inert_ondelete!r}, passive_deletes='
+                         f'{any(r.passive for r in rel_pc)} - but no code switches on `PRAGMA foreign_keys`, so '
+                         'SQLite never applies ON DELETE and the ORM no longer deletes unloaded children)')
             rep.fail(rid, construct, f'{key} @ {sconstruct.split("::")[1]}',
                      f'{parent.cls} rows are deleted at {sconstruct} (`{short(node, 50)}`) but '
                      f'{child.cls}.{col.name} (nullable={col.nullable}) has no delete rule: no '
                      f'cascade on a {parent.cls}->{child.cls} relationship, no ondelete, and the '
-                     f'site does not handle dependent {child.cls} rows first', node,
+                     f'site does not handle dependent {child.cls} rows first{inert}', node,
                      file=sconstruct.split('::')[0])
     # association tables
     for tname, cols in assoc.items():
